@@ -615,11 +615,11 @@ Definition sys_setxattr (c : creds) (h : host) (i : N) (n : name) (v : list N) (
     else match classify_xname n with
     | XEmpty | XTooLong => (Err ERANGE, h)
     | XBadNs => (Err EOPNOTSUPP, h)
-    | XNoSuffix => (Err EINVAL, h)
     | XOther => (Err EUNMODELLED, h)
-    | XUser =>
+    | XUser | XNoSuffix =>
         if negb (xattr_ok_kind (i_kind iv)) then (Err EPERM, h)
         else if negb (may c iv MAY_W) then (Err EACCES, h)
+        else if len n =? 5 then (Err EINVAL, h)
         else match xfind n (i_xattrs iv) with
         | Some _ => if has flags XATTR_CREATE then (Err EEXIST, h)
                     else (Ok tt, set h i (mkInode (i_kind iv) (i_mode iv) (i_uid iv) (i_gid iv) (xins n v (i_xattrs iv))))
@@ -636,11 +636,11 @@ Definition sys_getxattr (c : creds) (h : host) (i : N) (n : name) (size : N) : r
     match classify_xname n with
     | XEmpty | XTooLong => Err ERANGE
     | XBadNs => Err EOPNOTSUPP
-    | XNoSuffix => Err EINVAL
     | XOther => Err EUNMODELLED
-    | XUser =>
+    | XUser | XNoSuffix =>
         if negb (xattr_ok_kind (i_kind iv)) then Err ENODATA
         else if negb (may c iv MAY_R) then Err EACCES
+        else if len n =? 5 then Err EINVAL
         else match xfind n (i_xattrs iv) with
         | None => Err ENODATA
         | Some v => if size =? 0 then Ok (inr (len v))
@@ -666,11 +666,11 @@ Definition sys_removexattr (c : creds) (h : host) (i : N) (n : name) : res unit 
     match classify_xname n with
     | XEmpty | XTooLong => (Err ERANGE, h)
     | XBadNs => (Err EOPNOTSUPP, h)
-    | XNoSuffix => (Err EINVAL, h)
     | XOther => (Err EUNMODELLED, h)
-    | XUser =>
+    | XUser | XNoSuffix =>
         if negb (xattr_ok_kind (i_kind iv)) then (Err EPERM, h)
         else if negb (may c iv MAY_W) then (Err EACCES, h)
+        else if len n =? 5 then (Err EINVAL, h)
         else match xfind n (i_xattrs iv) with
         | None => (Err ENODATA, h)
         | Some _ => (Ok tt, set h i (mkInode (i_kind iv) (i_mode iv) (i_uid iv) (i_gid iv) (xdel n (i_xattrs iv))))
